@@ -85,6 +85,10 @@ def check(ctx):
     R2 = ctx.rule("R2", "the nonce signed is the endpoint's current nonce; every received response refreshes it before any exit or retry; a missing nonce is fetched first")
     ctx.floor(R2, "update_nonce call in http::post", len(upd), 1)
     fresh_nonce_rule(ctx, R2)
+    for c in sends:
+        # a retransmission is a NEW JWS (new nonce): no send -> send cycle avoids the data builder (shared with C08.R6)
+        after = pb.reachable_after(c.bb, removed_nodes=[u.bb for u in builder])
+        ctx.require(R2, c.bb not in after, c.where(), "every send -> send cycle re-runs the data builder (a request body is never re-sent with its used nonce)", [POST, "retry-same-body"])
     nonce_update_rule(ctx, R2)
     for u in upd:
         a = arg_origins(u, 1)
@@ -231,6 +235,8 @@ def check(ctx):
                     "MAC key and kid are the configured external account's", ["structs::Account::new", "eab-key"])
 
     R5 = ctx.rule("R5", "key and signature algorithm of each JWS come from the same AccountKey; incompatible algorithm refused before signing")
+    from .c11 import rollover_key_rule
+    rollover_key_rule(ctx, R5)
     for c in jwk_sites + kid_sites:
         body = c.body
         k = resolve_through_captures(prog, body, c.args[0])
